@@ -291,30 +291,24 @@ def setOpts (o : Opts) : M Unit := modify fun s => { s with options := o }
 inductive BlankMode where
   | normal | line | paren
 
-/-- `scanBlank` under IgnorePatternWhitespace: `(consumed, unterminated comment)` -/
-def blankX : BlankMode → List Nat → Nat → Nat × Bool
+/-- the loops of `scanBlank` as one scan: `(consumed, unterminated comment)`.  `x` =
+    IgnorePatternWhitespace (white space and `#…` comments are skipped too; a `#` comment ends
+    before the line feed, which is white space itself); `(?#…)` comments in both modes -/
+def blankGo (x : Bool) : BlankMode → List Nat → Nat → Nat × Bool
   | .normal, [], k => (k, false)
   | .normal, c :: r, k =>
-    if isSpaceCh c then blankX .normal r (k + 1)
-    else if c = 35 then blankX .line r (k + 1)
-    else if c = 40 ∧ r.head? = some 63 ∧ r.tail.head? = some 35 then blankX .paren r (k + 1)
+    if x && isSpaceCh c then blankGo x .normal r (k + 1)
+    else if x && c == 35 then blankGo x .line r (k + 1)
+    else if c = 40 ∧ r.head? = some 63 ∧ r.tail.head? = some 35 then blankGo x .paren r (k + 1)
     else (k, false)
   | .line, [], k => (k, false)
-  | .line, c :: r, k => if c = 10 then blankX .normal r (k + 1) else blankX .line r (k + 1)
+  | .line, c :: r, k => if c = 10 then blankGo x .normal r (k + 1) else blankGo x .line r (k + 1)
   | .paren, [], k => (k, true)
-  | .paren, c :: r, k => if c = 41 then blankX .normal r (k + 1) else blankX .paren r (k + 1)
-
-/-- `scanBlank` without IgnorePatternWhitespace: only `(?#…)` comments -/
-def blankN : Bool → List Nat → Nat → Nat × Bool
-  | false, 40 :: 63 :: 35 :: r, k => blankN true r (k + 3)
-  | false, _, k => (k, false)
-  | true, [], k => (k, true)
-  | true, c :: r, k => if c = 41 then blankN false r (k + 1) else blankN true r (k + 1)
+  | .paren, c :: r, k => if c = 41 then blankGo x .normal r (k + 1) else blankGo x .paren r (k + 1)
 
 /-- `scanBlank` -/
 def scanBlank : M Unit := fun s =>
-  let r := E.pat.drop s.pos
-  let res := if s.options.x then blankX .normal r 0 else blankN false r 0
+  let res := blankGo s.options.x .normal (E.pat.drop s.pos) 0
   let s' := { s with pos := s.pos + res.1 }
   if res.2 then .err .unterminatedComment s' else .ok () s'
 
